@@ -1,0 +1,49 @@
+//! Instrumentation hooks for external verification harnesses.
+//! Compiled only with the `verif_hooks` cargo feature (off by default).
+//! All state is thread-local so that concurrent harness workers do not interfere.
+
+use std::cell::{Cell, RefCell};
+
+/// One bucket pass of `filter_kmers`: (pass index, first bucket, end bucket, k-mer observations pushed)
+pub type PassRecord = (usize, usize, usize, usize);
+
+thread_local! {
+    static MEM_UNIT: Cell<Option<usize>> = Cell::new(None);
+    static PASS_TRACE: RefCell<Vec<PassRecord>> = RefCell::new(Vec::new());
+    static FORCE_SCALAR: Cell<bool> = Cell::new(false);
+}
+
+/// Override the number of bytes that one unit of `memory_size` stands for in
+/// `filter_kmers` on this thread (`None` restores the built-in 10^9).
+pub fn set_filter_mem_unit(unit: Option<usize>) {
+    MEM_UNIT.with(|c| c.set(unit));
+}
+
+pub(crate) fn filter_max_mem(memory_size: usize, default: usize) -> usize {
+    match MEM_UNIT.with(|c| c.get()) {
+        Some(unit) => memory_size * unit,
+        None => default,
+    }
+}
+
+pub(crate) fn filter_trace_clear() {
+    PASS_TRACE.with(|t| t.borrow_mut().clear());
+}
+
+pub(crate) fn filter_trace_push(rec: PassRecord) {
+    PASS_TRACE.with(|t| t.borrow_mut().push(rec));
+}
+
+/// Bucket passes made by the last `filter_kmers` call on this thread.
+pub fn filter_pass_trace() -> Vec<PassRecord> {
+    PASS_TRACE.with(|t| t.borrow().clone())
+}
+
+/// Make `DnaString::from_acgt_bytes` behave on this thread as if AVX2 were not available.
+pub fn set_force_scalar(on: bool) {
+    FORCE_SCALAR.with(|c| c.set(on));
+}
+
+pub fn force_scalar() -> bool {
+    FORCE_SCALAR.with(|c| c.get())
+}
